@@ -46,7 +46,7 @@ def orbits_of(ops, points, D):
     return out
 
 
-def build_crystal(number, choice, cell, sites_int, D, start_z=1, occ_cycle=True):
+def build_crystal(number, choice, cell, sites_int, D, start_z=1, occ_cycle=True, container="float64"):
     from chmpy.crystal import Crystal, SpaceGroup, UnitCell, AsymmetricUnit
     from chmpy.core.element import Element
 
@@ -57,17 +57,24 @@ def build_crystal(number, choice, cell, sites_int, D, start_z=1, occ_cycle=True)
     labels = ["%s%d" % (e.symbol, i + 1) for i, e in enumerate(els)]
     occ = np.array([OCC[i % 3] if occ_cycle else 1.0 for i in range(len(sites_int))])
     pos = np.array(sites_int, dtype=np.float64) / D
+    if container == "int":       # e.g. fcc Cu written as [[0, 0, 0]]
+        assert np.all(pos == np.rint(pos))
+        pos = np.rint(pos).astype(np.int64)
+    elif container == "list":
+        pos = pos.tolist()
+    elif container == "float32":
+        pos = pos.astype(np.float32)
     asym = AsymmetricUnit(els, pos, labels=labels, occupation=occ)
     return Crystal(uc, sg, asym), zs, labels, occ
 
 
-def check_crystal(part, row, ops, cell, sites_int, D, case, slab_bounds=None, start_z=1):
+def check_crystal(part, row, ops, cell, sites_int, D, case, slab_bounds=None, start_z=1, container="float64"):
     """one execution: build the real crystal, expand it, compare with the exact orbit model"""
     number, choice = row["number"], row["choice"]
     sk = "%d:%s" % (number, choice)
     part.ev()
     try:
-        c, zs, labels, occ = build_crystal(number, choice, cell, sites_int, D, start_z)
+        c, zs, labels, occ = build_crystal(number, choice, cell, sites_int, D, start_z, container=container)
         uc = c.unit_cell_atoms()
     except Exception as e:
         part.fail("raise:%s" % sk, "unit_cell_atoms raised %r for %s" % (e, sk), case)
@@ -250,6 +257,10 @@ def plan_for_setting(row, tier, seed):
     shifts = [(-1, 0, 0), (0, 2, -1), (-3, 1, 2), (4, -2, 0), (-6, -6, 5)]
     shifted = [tuple(p[k] + shifts[i % len(shifts)][k] * N for k in range(3)) for i, p in enumerate(reps0)]
     cases.append({"number": number, "choice": choice, "D": N, "sites": shifted, "cell": cells[0], "slab": None, "z0": 3, "variant": "lattice-shifted"})
+    # containers / dtypes of the positions array: integer-typed (sites with integer coordinates), nested lists, float32
+    cases.append({"number": number, "choice": choice, "D": N, "sites": [(N, -N, 2 * N)], "cell": cells[0], "slab": None, "z0": 29,
+                  "variant": "int-array", "container": "int"})
+    cases.append({"number": number, "choice": choice, "D": N, "sites": reps0[:7], "cell": cells[0], "slab": None, "z0": 11, "variant": "list", "container": "list"})
     Dg = 12 * 997
     for ci, cell in enumerate(cells):
         cases.append({"number": number, "choice": choice, "D": Dg, "sites": generic_sites(seed + ci, Dg, ops), "cell": cell,
@@ -264,14 +275,14 @@ def run_case(part, case, rows):
     slab = case["slab"]
     if slab is not None:
         slab = tuple(tuple(x) for x in slab)
-    ok = check_crystal(part, row, ops, tuple(case["cell"]), sites, case["D"], case, slab_bounds=slab, start_z=case["z0"])
+    ok = check_crystal(part, row, ops, tuple(case["cell"]), sites, case["D"], case, slab_bounds=slab, start_z=case["z0"], container=case.get("container", "float64"))
     if ok is False and len(sites) > 1:
         # shrink: find one failing site so that the replay file is minimal
         for s in sites:
             sub = dict(case, sites=[s])
             from mc.core import Part
             p2 = Part()
-            check_crystal(p2, row, ops, tuple(case["cell"]), [s], case["D"], sub, slab_bounds=slab, start_z=case["z0"])
+            check_crystal(p2, row, ops, tuple(case["cell"]), [s], case["D"], sub, slab_bounds=slab, start_z=case["z0"], container=case.get("container", "float64"))
             if p2.failures:
                 key, what, _ = p2.failures[0]
                 part.failures.append((key + ":single-site", what + " [single site %s/%d]" % (s, case["D"]), sub))
